@@ -57,28 +57,28 @@ package tracetransform
 //@   unchecked frame fresh protobuf messages are written
 //@   ensures len(converted) == len(vals)
 //@   assert@store elem#* : $val != nil && typeis($val.Value, "*commonpb.AnyValue_BoolValue") && cast($val.Value, "*commonpb.AnyValue_BoolValue").BoolValue == vals[i] && 0 <= i && i < len(vals)
-//@   loop#1 invariant len(converted) == len(vals) && fresh(converted)
+//@   loop#1 invariant len(converted) == len(vals) && fresh(converted) && 0 <= i && i <= len(vals)
 //@ func int64SliceValues(vals []int64) (converted []*commonpb.AnyValue)
 //@   prop C13
 //@   overflow assumed
 //@   unchecked frame fresh protobuf messages are written
 //@   ensures len(converted) == len(vals)
 //@   assert@store elem#* : $val != nil && typeis($val.Value, "*commonpb.AnyValue_IntValue") && cast($val.Value, "*commonpb.AnyValue_IntValue").IntValue == vals[i] && 0 <= i && i < len(vals)
-//@   loop#1 invariant len(converted) == len(vals) && fresh(converted)
+//@   loop#1 invariant len(converted) == len(vals) && fresh(converted) && 0 <= i && i <= len(vals)
 //@ func float64SliceValues(vals []float64) (converted []*commonpb.AnyValue)
 //@   prop C13
 //@   overflow assumed
 //@   unchecked frame fresh protobuf messages are written
 //@   ensures len(converted) == len(vals)
 //@   assert@store elem#* : $val != nil && typeis($val.Value, "*commonpb.AnyValue_DoubleValue") && cast($val.Value, "*commonpb.AnyValue_DoubleValue").DoubleValue === vals[i] && 0 <= i && i < len(vals)
-//@   loop#1 invariant len(converted) == len(vals) && fresh(converted)
+//@   loop#1 invariant len(converted) == len(vals) && fresh(converted) && 0 <= i && i <= len(vals)
 //@ func stringSliceValues(vals []string) (converted []*commonpb.AnyValue)
 //@   prop C13
 //@   overflow assumed
 //@   unchecked frame fresh protobuf messages are written
 //@   ensures len(converted) == len(vals)
 //@   assert@store elem#* : $val != nil && typeis($val.Value, "*commonpb.AnyValue_StringValue") && cast($val.Value, "*commonpb.AnyValue_StringValue").StringValue == vals[i] && 0 <= i && i < len(vals)
-//@   loop#1 invariant len(converted) == len(vals) && fresh(converted)
+//@   loop#1 invariant len(converted) == len(vals) && fresh(converted) && 0 <= i && i <= len(vals)
 
 // Value: the oneof kind follows the attribute's type; scalars carry exactly the attribute's value; anything else is the string "INVALID"
 //@ func Value(v attribute.Value) (av *commonpb.AnyValue)
